@@ -51,7 +51,7 @@ def c18 : Sexp → Option Sexp
 
 def cliLoc? : Sexp → Option (Option Cli.Loc)
   | .atom "-" => some none
-  | .list [s, p, path] => do some (some ⟨(← bool? s), (← nat? p), (← bytes? path)⟩)
+  | .list [s, p, path, q] => do some (some ⟨(← bool? s), (← nat? p), (← bytes? path), (← pairs? q)⟩)
   | _ => none
 
 def cliResp? : Sexp → Option Cli.Resp
@@ -64,8 +64,10 @@ def cliServer? : Sexp → Option Cli.Server
   | _ => none
 
 def cliReq? : Sexp → Option Cli.Req
-  | .list [m, p, b] => do some ⟨(← bytes? m), (← bytes? p), (← bytes? b)⟩
+  | .list [m, p, b, q] => do some ⟨(← bytes? m), (← bytes? p), (← bytes? b), (← pairs? q)⟩
   | _ => none
+
+def ofPairs (ps : List (Bytes × Bytes)) : Sexp := .list (ps.map fun p => .list [ofBytes p.1, ofBytes p.2])
 
 def ofOptNat : Option Nat → Sexp := ofOpt ofNat
 
@@ -81,7 +83,7 @@ def c19 : Sexp → Option Sexp
     let fuel := 2 * (rq.length + (sv.map (fun s => s.script.length)).foldl (· + ·) 0) + 10
     let s := Cli.run sv (List.replicate fuel true) (Cli.init sec port sv rq)
     let ents := s.entries.map fun e =>
-      Sexp.list [ofOptNat e.status, ofBytes e.body, ofBool e.errored, ofOptNat e.tag, ofBytes e.method, ofBytes e.path, ofBytes e.rbody,
+      Sexp.list [ofOptNat e.status, ofBytes e.body, ofBool e.errored, ofOptNat e.tag, ofBytes e.method, ofBytes e.path, ofBytes e.rbody, ofPairs e.rqargs,
                  .list (e.redirects.map fun h => .list [ofNat h.status, ofBytes h.path, ofOptNat h.tag])]
     let wire := s.wire.map fun w => Sexp.list [ofNat w.port, ofBool w.tls, ofBytes w.method, ofBytes w.path, ofBytes w.body]
     -- `stuck` is visible from outside only as waited = true with requests left
@@ -97,7 +99,6 @@ def exnName : Req.Exn → String
   | .unknownProtocol => "HTTPException" | .badMethod => "HTTPException" | .valueError => "ValueError"
   | .tooManyHeaders => "HTTPException" | .noLength => "HTTPException"
 
-def ofPairs (ps : List (Bytes × Bytes)) : Sexp := .list (ps.map fun p => .list [ofBytes p.1, ofBytes p.2])
 
 def c14Spec? : Sexp → Option Req.Spec
   | .list [m, p, qa, hs, bk, raw, form, host, bd] => do
